@@ -328,4 +328,47 @@ theorem with_count_spec (C : Consistent hash eq) (ks : List K) :
   have h := withCount_spec C (⟨trivial, rfl⟩ : Inv C (empty : Table K Nat)) ks
   simpa [lookB, empty, bget] using h
 
+
+/-! ### `keys`, `values` and `update(m, Mapping)` -/
+
+/-- `keys(m)` and `values(m)` enumerate the stored entries in one common order: as many as `len(m)`, the keys
+pairwise inequivalent (one per class), position `i` of `values` is the value bound to position `i` of `keys`,
+and a key is present exactly when an equivalent key is listed — under any consistent hash -/
+theorem keys_values_spec (C : Consistent hash eq) {t : Table K V} (hI : Inv C t) :
+    (keys t).length = t.len ∧ (values t).length = t.len ∧
+    (keys t).Pairwise (fun x y => C.e x y = false) ∧
+    (∀ kv ∈ (keys t).zip (values t), look C t kv.1 = some kv.2) ∧
+    (∀ k, has C t k = true ↔ ∃ x ∈ keys t, C.e k x = true) := by
+  have hp := toList_pairwise C hI
+  have hz : (keys t).zip (values t) = toList t := by
+    unfold keys values; rw [List.zip_map_left, List.zip_map_right]
+    induction toList t with
+    | nil => rfl
+    | cons x r ih => simp [List.zip_cons_cons] at ih ⊢; exact ih
+  refine ⟨by simp [keys, toList_length, hI.len_eq], by simp [values, toList_length, hI.len_eq],
+    List.pairwise_map.2 hp, ?_, fun k => ?_⟩
+  · intro kv hkv
+    rw [hz] at hkv
+    exact findE_self_of_mem C _ hp kv hkv
+  · unfold has look keys
+    rw [findE_isSome_iff]
+    simp
+
+/-- `update(m, s)` for a mapping `s`: the result is well-formed and answers every key with `s`'s binding where `s`
+has one and with `m`'s otherwise (right-biased union of the two finite maps), whatever the iteration order of `s` -/
+theorem update_from_mapping_spec (C : Consistent hash eq) {t s : Table K V} (hI : Inv C t) (hS : Inv C s) :
+    ∃ t', updateFromMapping hash eq t s = .ok t' ∧ Inv C t' ∧
+      ∀ k, look C t' k = match look C s k with | some v => some v | none => look C t k := by
+  obtain ⟨t', h1, h2, h3⟩ := bulk_update C hI (toList s)
+  refine ⟨t', h1, h2, fun k => ?_⟩
+  rw [h3 k, writeAll_pairwise C _ (toList_pairwise C hS)]
+  rfl
+
+/-- consequence: updating with an empty mapping, or with the mapping itself, changes no answer -/
+theorem update_from_mapping_idem (C : Consistent hash eq) {t : Table K V} (hI : Inv C t) :
+    ∃ t', updateFromMapping hash eq t t = .ok t' ∧ Inv C t' ∧ ∀ k, look C t' k = look C t k := by
+  obtain ⟨t', h1, h2, h3⟩ := update_from_mapping_spec C hI hI
+  refine ⟨t', h1, h2, fun k => ?_⟩
+  rw [h3 k]; cases look C t k <;> rfl
+
 end XrayModel.C17
